@@ -187,9 +187,12 @@ where
     let gen_store: &'static str = Box::leak(format!("{}-store-load", name).into_boxed_str());
     // case space: buffer length x index x background
     let mut cases: Vec<(usize, usize, usize)> = Vec::new();
-    for len in 0..=max_len {
+    let mut lens: Vec<usize> = (0..=max_len).collect();
+    // longer buffers: indices and byte offsets beyond 255
+    lens.extend([255usize, 256, 257, 600]);
+    for len in lens {
         let n = pixel_count(len, bpp);
-        let mut idxs: Vec<usize> = (0..n + 4).collect();
+        let mut idxs: Vec<usize> = if len <= max_len { (0..n + 4).collect() } else { vec![0, 1, 127, 128, 254, 255, 256, 257, 258, n / 2, n.saturating_sub(2), n.saturating_sub(1), n, n + 1, n + 3] };
         idxs.extend([n + 17, usize::MAX / 8, usize::MAX / 4 + 1, usize::MAX / 2 + 1, usize::MAX - 1, usize::MAX]);
         for i in idxs {
             for bg in 0..4 {
